@@ -248,8 +248,8 @@ def run_case(case, ctx):
                 got = run_op_guarded(r, op)
                 judge(op, got, faults, h.injected, 'single')
                 if got[0] == 'exc' and kind in ('exc', 'empty'):
-                    # the fault was transient: the same call repeated on the SAME reader now meets no fault; it may raise
-                    # again but must never return anything but the true result (no state left behind by the failed call)
+                    # the fault was transient: the same call repeated on the SAME reader now meets no fault; no range
+                    # read fails on behalf of the repeat, so it must return the true result (no state left behind by the failed call)
                     got2 = run_op_guarded(r, op)
                     counters['retries_after_fault'] += 1
                     if got2[0] == 'breach' or (got2[0] == 'ok' and got2 != truth_of[repr(op)]):
@@ -258,9 +258,17 @@ def run_case(case, ctx):
                                               % (op[0], op[1:], faults)})
                     elif got2[0] == 'ok':
                         counters['retries_ok'] += 1
+                    else:
+                        # no range read fails on behalf of the repeated call: "otherwise it returns the true data"
+                        bad.append({'sig': '%s:%s:fault-free-repeat-after-%s-fault-raises-%s' % (backend, op[0], kind, got2[1]),
+                                    'detail': '%s%s failed with fault %s; the fault-free repeat on the same reader raised %s' % (op[0], op[1:], faults, got2[1])})
                     if probe_after.get(op[0]):
                         for op3 in probe_after[op[0]]:
                             got3 = run_op_guarded(r, op3)
+                            if got3[0] == 'exc':
+                                bad.append({'sig': '%s:%s:after-failed-%s:fault-free-call-raises-%s' % (backend, op3[0], op[0], got3[1]),
+                                            'detail': '%s%s failed with fault %s; then the fault-free %s%s on the same reader raised %s'
+                                                      % (op[0], op[1:], faults, op3[0], op3[1:], got3[1])})
                             if got3[0] == 'breach' or (got3[0] == 'ok' and got3 != truth_of[repr(op3)]):
                                 bad.append({'sig': '%s:%s:after-failed-%s:returned-wrong-data' % (backend, op3[0], op[0]),
                                             'detail': '%s%s failed with fault %s; then %s%s on the same reader returned a result differing from the true one'
@@ -323,6 +331,9 @@ def run_case(case, ctx):
                 judge(op, got, faults, h.injected, 'single fault after a successful %s%s on the same reader' % (sib[0], sib[1]))
                 got2 = run_op_guarded(r, op)
                 counters['warm_fault_sequences'] = counters.get('warm_fault_sequences', 0) + 1
+                if got2[0] == 'exc':
+                    bad.append({'sig': '%s:%s:fault-free-repeat-on-warm-reader-raises-%s' % (backend, op[0], got2[1]),
+                                'detail': '%s%s then %s%s with fault %s, then the fault-free repeat raised' % (sib[0], sib[1], op[0], op[1:], faults)})
                 if got2[0] == 'breach' or (got2[0] == 'ok' and got2 != truth_of[repr(op)]):
                     bad.append({'sig': '%s:%s:retry-after-%s-fault-on-warm-reader-returned-wrong-data' % (backend, op[0], kind),
                                 'detail': '%s%s then %s%s with fault %s, then the fault-free repeat: result differs from the true one%s'
